@@ -1167,7 +1167,6 @@ func checkPackExtract(p *Program, r *Report, models []*Model) {
 	r.Floor("R06.4", "pack/extract pairs", n, 2)
 }
 
-
 // checkDelegatedStates (R06.5): when a kernel delegates to another registered kernel, the caller's state that is
 // passed in as the callee's state k must be the same state the callee's returned state k is handed back as.
 func checkDelegatedStates(p *Program, r *Report, models []*Model) {
